@@ -88,11 +88,12 @@ fn seq_answers(kind: StoreKind, clean: bool, order: &[&Rq]) -> Vec<Ans> {
     }
 }
 
-struct Outcome { ok_without_cancel: Option<bool>, ok: bool, what: String, order: Vec<(usize, usize)>, answers: Vec<Vec<Option<Ans>>>, cancelled: Vec<Vec<bool>>, steps: usize }
+struct Outcome { progs_all: Vec<Vec<Rq>>, dequeued: usize, ok_without_cancel: Option<bool>, ok: bool, what: String, order: Vec<(usize, usize)>, answers: Vec<Vec<Option<Ans>>>, cancelled: Vec<Vec<bool>>, steps: usize }
 
 /// actions: 0..k-1 poll client i; k poll actor; k+1+i cancel client i's pending request
 fn run_schedule(kind: StoreKind, cap: usize, clean: bool, progs: &[Vec<Rq>], schedule: &[usize]) -> Outcome {
     let k = progs.len();
+    throttlecrab_server::actor::VERIF_DEQUEUED.store(0, std::sync::atomic::Ordering::SeqCst);
     let (handle, mut actor) = make(kind, cap, clean);
     let waker = noop_waker();
     let mut cx = Context::from_waker(&waker);
@@ -129,21 +130,43 @@ fn run_schedule(kind: StoreKind, cap: usize, clean: bool, progs: &[Vec<Rq>], sch
     let mut rounds = 0;
     while cl.iter().any(|c| c.next < c.prog.len()) {
         rounds += 1;
-        if rounds > 10_000 { return Outcome { ok_without_cancel: None, ok: false, what: "deadlock: clients still pending after 10000 fair rounds of polling every client and the actor".into(), order: vec![], answers: cl.iter().map(|c| c.answers.clone()).collect(), cancelled: cl.iter().map(|c| c.cancelled.clone()).collect(), steps: step }; }
+        if rounds > 10_000 { return Outcome { progs_all: cl.iter().map(|c| c.prog.clone()).collect(), dequeued: 0, ok_without_cancel: None, ok: false, what: "deadlock: clients still pending after 10000 fair rounds of polling every client and the actor".into(), order: vec![], answers: cl.iter().map(|c| c.answers.clone()).collect(), cancelled: cl.iter().map(|c| c.cancelled.clone()).collect(), steps: step }; }
         for i in 0..k { step += 1; poll_client(&mut cl[i], step, &mut cx, &handle); }
         step += 1;
         if !actor_done { match std::panic::catch_unwind(std::panic::AssertUnwindSafe(|| actor.as_mut().poll(&mut cx))) { Ok(Poll::Ready(())) => actor_done = true, Ok(Poll::Pending) => {}, Err(_) => { actor_done = true; panicked = true; } } }
     }
-    if panicked { return Outcome { ok_without_cancel: None, ok: false, what: "the actor loop panicked while serving a request (C11: one request must not take the service down)".into(), order: vec![], answers: cl.iter().map(|c| c.answers.clone()).collect(), cancelled: cl.iter().map(|c| c.cancelled.clone()).collect(), steps: step }; }
-    // linearizability search over interleavings (program order per client; cancelled requests may be in or out)
+    if panicked { return Outcome { progs_all: cl.iter().map(|c| c.prog.clone()).collect(), dequeued: 0, ok_without_cancel: None, ok: false, what: "the actor loop panicked while serving a request (C11: one request must not take the service down)".into(), order: vec![], answers: cl.iter().map(|c| c.answers.clone()).collect(), cancelled: cl.iter().map(|c| c.cancelled.clone()).collect(), steps: step }; }
+    // drain what abandoned requests left in the queue, then read how many messages the actor took from the queue (hook H2b)
+    for _ in 0..3 { if !actor_done { let _ = std::panic::catch_unwind(std::panic::AssertUnwindSafe(|| actor.as_mut().poll(&mut cx))); } }
+    let dequeued = throttlecrab_server::actor::VERIF_DEQUEUED.load(std::sync::atomic::Ordering::SeqCst) as usize;
+    let answered: usize = cl.iter().map(|c| c.answers.iter().filter(|a| a.is_some()).count()).sum();
+    // abandoned requests that had reached the queue: they must be applied (C10: budget accounting of requests already queued)
+    let cancelled_in = dequeued.saturating_sub(answered);
+    // probes after everything else: one zero-quantity request per key with the limits of the last request on that key
+    {
+        let mut last: std::collections::BTreeMap<u64, Rq> = std::collections::BTreeMap::new();
+        let mut tmax = 0u64;
+        for c in cl.iter() { for r in c.prog.iter() { tmax = tmax.max(r.now_ns); if r.b > 0 && r.count > 0 && r.period > 0 { last.insert(r.key, r.clone()); } } }
+        let prog: Vec<Rq> = last.values().map(|r| Rq { q: 0, now_ns: tmax, ..r.clone() }).collect();
+        let n = prog.len();
+        let mut pc = Client { prog, next: 0, cur: None, first_poll_step: vec![None; n], done_step: vec![None; n], answers: vec![None; n], cancelled: vec![false; n] };
+        let mut rounds = 0;
+        while pc.next < pc.prog.len() && rounds < 1000 {
+            rounds += 1; step += 1;
+            poll_client(&mut pc, step, &mut cx, &handle);
+            if !actor_done { let _ = std::panic::catch_unwind(std::panic::AssertUnwindSafe(|| actor.as_mut().poll(&mut cx))); }
+        }
+        cl.push(pc);
+    }
+    // linearizability search over interleavings (program order per client; an abandoned request is in the order iff it reached the queue)
     let answers: Vec<Vec<Option<Ans>>> = cl.iter().map(|c| c.answers.clone()).collect();
     let cancelled: Vec<Vec<bool>> = cl.iter().map(|c| c.cancelled.clone()).collect();
     let mut found: Option<Vec<(usize, usize)>> = None;
-    let mut pos = vec![0usize; k];
     let mut order: Vec<(usize, usize)> = Vec::new();
-    fn rec(kind: StoreKind, clean: bool, cl: &[Client], pos: &mut Vec<usize>, order: &mut Vec<(usize, usize)>, found: &mut Option<Vec<(usize, usize)>>) {
+    fn rec(kind: StoreKind, clean: bool, cancelled_in: usize, cl: &[Client], pos: &mut Vec<usize>, order: &mut Vec<(usize, usize)>, found: &mut Option<Vec<(usize, usize)>>) {
         if found.is_some() { return; }
         if (0..cl.len()).all(|i| pos[i] >= cl[i].prog.len()) {
+            if order.iter().filter(|&&(i, j)| cl[i].cancelled[j]).count() != cancelled_in { return; }
             let reqs: Vec<&Rq> = order.iter().map(|&(i, j)| &cl[i].prog[j]).collect();
             let seq = seq_answers(kind, clean, &reqs);
             for (n, &(i, j)) in order.iter().enumerate() {
@@ -165,20 +188,21 @@ fn run_schedule(kind: StoreKind, cap: usize, clean: bool, progs: &[Vec<Rq>], sch
             if !ok { continue; }
             pos[i] += 1;
             order.push((i, j));
-            rec(kind, clean, cl, pos, order, found);
+            rec(kind, clean, cancelled_in, cl, pos, order, found);
             order.pop();
             // an abandoned request may also never have reached the actor
-            if cl[i].cancelled[j] { rec(kind, clean, cl, pos, order, found); }
+            if cl[i].cancelled[j] { rec(kind, clean, cancelled_in, cl, pos, order, found); }
             pos[i] -= 1;
             if found.is_some() { return; }
         }
     }
-    rec(kind, clean, &cl, &mut pos, &mut order, &mut found);
+    let mut pos = vec![0usize; cl.len()];
+    rec(kind, clean, cancelled_in, &cl, &mut pos, &mut order, &mut found);
     // every non-abandoned request has exactly one answer
-    for c in &cl { for j in 0..c.prog.len() { if !c.cancelled[j] && c.answers[j].is_none() { return Outcome { ok_without_cancel: None, ok: false, what: "a request that was not abandoned has no answer".into(), order: vec![], answers, cancelled, steps: step }; } } }
+    for c in &cl { for j in 0..c.prog.len() { if !c.cancelled[j] && c.answers[j].is_none() { return Outcome { progs_all: cl.iter().map(|c| c.prog.clone()).collect(), dequeued: 0, ok_without_cancel: None, ok: false, what: "a request that was not abandoned has no answer".into(), order: vec![], answers, cancelled, steps: step }; } } }
     match found {
-        Some(o) => Outcome { ok_without_cancel: None, ok: true, what: String::new(), order: o, answers, cancelled, steps: step },
-        None => Outcome { ok_without_cancel: None, ok: false, what: "not linearizable: no interleaving of the clients' programs (program order, real-time precedence) replayed on one sequential limiter gives the observed answers".into(), order: vec![], answers, cancelled, steps: step },
+        Some(o) => Outcome { progs_all: cl.iter().map(|c| c.prog.clone()).collect(), dequeued, ok_without_cancel: None, ok: true, what: String::new(), order: o, answers, cancelled, steps: step },
+        None => Outcome { progs_all: cl.iter().map(|c| c.prog.clone()).collect(), dequeued: 0, ok_without_cancel: None, ok: false, what: "not linearizable: no interleaving of the clients' programs (program order, real-time precedence) replayed on one sequential limiter gives the observed answers".into(), order: vec![], answers, cancelled, steps: step },
     }
 }
 
@@ -206,13 +230,14 @@ fn gen_progs(rng: &mut Rng, k: usize, per: usize, hostile: bool) -> Vec<Vec<Rq>>
 }
 
 fn emit(kind: StoreKind, cap: usize, clean: bool, progs: &[Vec<Rq>], schedule: &[usize], o: &Outcome) {
-    let p: Vec<String> = progs.iter().map(|c| format!("[{}]", c.iter().map(|r| r.json()).collect::<Vec<_>>().join(","))).collect();
+    let _ = progs;
+    let p: Vec<String> = o.progs_all.iter().map(|c| format!("[{}]", c.iter().map(|r| r.json()).collect::<Vec<_>>().join(","))).collect();
     let ans: Vec<String> = o.answers.iter().map(|c| format!("[{}]", c.iter().map(|a| a.as_ref().map(|x| x.json()).unwrap_or("null".into())).collect::<Vec<_>>().join(","))).collect();
     let ord: Vec<String> = o.order.iter().map(|(i, j)| format!("[{i},{j}]")).collect();
     let sch: Vec<String> = schedule.iter().map(|x| x.to_string()).collect();
     let canc: Vec<String> = o.cancelled.iter().map(|c| format!("[{}]", c.iter().map(|b| b.to_string()).collect::<Vec<_>>().join(","))).collect();
-    println!("{{\"store\":\"{:?}\",\"cap\":{cap},\"clean\":{clean},\"progs\":[{}],\"schedule\":[{}],\"ok\":{},\"ok_without_cancel\":{},\"what\":{:?},\"order\":[{}],\"answers\":[{}],\"cancelled\":[{}],\"steps\":{}}}",
-        kind, p.join(","), sch.join(","), o.ok, o.ok_without_cancel.map(|b| b.to_string()).unwrap_or("null".into()), o.what, ord.join(","), ans.join(","), canc.join(","), o.steps);
+    println!("{{\"store\":\"{:?}\",\"cap\":{cap},\"clean\":{clean},\"progs\":[{}],\"schedule\":[{}],\"dequeued\":{},\"ok\":{},\"ok_without_cancel\":{},\"what\":{:?},\"order\":[{}],\"answers\":[{}],\"cancelled\":[{}],\"steps\":{}}}",
+        kind, p.join(","), sch.join(","), o.dequeued, o.ok, o.ok_without_cancel.map(|b| b.to_string()).unwrap_or("null".into()), o.what, ord.join(","), ans.join(","), canc.join(","), o.steps);
 }
 
 fn main() {
